@@ -474,7 +474,7 @@ Norm(url0, enc) ==
    ELSE
     LET st1 == IF ~pt[2] THEN <<HTTP, url>> ELSE <<LowerS(pt[1]), pt[3]>>
         st2 == IF Has(st1[1], DOT) \/ st1[1] = tLOCALHOST
-               THEN <<HTTP, st1[1] \o <<COLON>> \o st1[2]>> ELSE st1
+               THEN <<HTTP, url>> ELSE st1       \* (the text as written, not the lower-cased "scheme")
     IN IF DefaultPort(st2[1]) = 0
        THEN [oc |-> "value", net |-> FALSE, url |-> url, scheme |-> st2[1]]
        ELSE NormRel(url, st2[1], st2[2], enc)
@@ -718,7 +718,7 @@ Soup2Classes == SoupClasses \o <<97, 49, SPC>>
 
 CrossPaths == << <<>>, S("/"), S("/a"), S("/a/"), S("/a/b"), S("/A"), S("/."), S("/.."), S("/a/.."), S("/a/../b"),
                  S("//a"), S("/a//b"), S("/%2e"), S("/%2E%2e/a"), S("/%2F"), S("/%aF"), <<SLASH, EAC>>, S("/a b"),
-                 S("/x;y"), S("/a/./b/") >>
+                 S("/x;y"), S("/a/./b/"), S("/Pub/File:1") >>
 CrossQF == << <<>>, S("?"), S("?a"), S("?a#f"), S("#f"), S("? ") \o <<EAC>> \o S("%eF#?") >>
 
 EncCat == << "utf-8", "latin-1", "ascii", "cp1252", "iso8859-15", "koi8-r", "cp437", "shift_jis", "euc_jp", "gbk",
@@ -750,12 +750,15 @@ Variants(b) ==
       Nots(I) == IF I = {} THEN <<>>
                  ELSE LET i == MinOf(I) IN
                       << <<"notation", Render([b EXCEPT !.ho = HostCat[i].t])>> >> \o Nots(I \ {i})
-  IN IF Len(b.ho) = 0 \/ (~Has(b.sc, COLON) /\ b.pk # "none") \/ Has(b.sc, DOT) \/ StartsWith(LowerS(b.sc), tLOCALHOST \o <<COLON>>)
+  IN IF Len(b.ho) = 0 \/ (~Has(b.sc, COLON) /\ b.pk # "none") \/ Has(b.sc, DOT)
+        \* (without a scheme, a colon further on makes everything before it the "scheme" - unless that has a dot)
+        \/ (~Has(b.sc, COLON) /\ ~Has(b.ho, DOT) /\ (Has(b.pa, COLON) \/ Has(b.qf, COLON))) \/ StartsWith(LowerS(b.sc), tLOCALHOST \o <<COLON>>)
      THEN <<>>       \* without a host, "host:port" without a scheme, or a "scheme" with a dot (read as host name + empty
                      \* port): the structure is not what the parser sees
      ELSE
      V("case", Render([b EXCEPT !.sc = UpperS(@), !.ho = UpperS(@)]))
-     \o (IF b.pk = "none" /\ Len(b.dp) > 0 /\ Has(b.sc, COLON) THEN   \* (without a scheme, "h:80" reads as scheme "h")
+     \* (without a scheme, "h:80" reads as scheme "h" - but "a.x:80" is a host and its port: a scheme has no dot)
+     \o (IF b.pk = "none" /\ Len(b.dp) > 0 /\ (Has(b.sc, COLON) \/ (b.sc \in {<<>>, S("//")} /\ Has(b.ho, DOT) /\ ~Has(b.ho, COLON))) THEN
          V("default-port", Render([b EXCEPT !.po = <<COLON>> \o b.dp])) ELSE <<>>)
      \o (IF StartsWith(b.pa, <<SLASH>>)
          THEN V("dot-segment", Render([b EXCEPT !.pa = tDOTSEG \o @])) \o V("dotdot-segment", Render([b EXCEPT !.pa = tDDSEG \o @]))
